@@ -449,7 +449,9 @@ pub async fn update_imds_redirect_policy(
     redirector_shared_state: RedirectorSharedState,
 ) {
     #[cfg(azure_guestproxyagent_verif)]
-    crate::verif::trace::emit(serde_json::json!({"e": "Policy", "ep": "imds", "redirect": redirect}));
+    crate::verif::trace::emit(
+        serde_json::json!({"e": "Policy", "ep": "imds", "redirect": redirect}),
+    );
     if let (Ok(Some(bpf_object)), Ok(local_port)) = (
         redirector_shared_state.get_bpf_object().await,
         redirector_shared_state.get_local_port().await,
